@@ -1,6 +1,6 @@
 (* C14 — excluded files are inert: no diagnostics in them, no influence from them. Statements only. *)
 From Coq Require Import List String ZArith Bool.
-From GG Require Import Base.Strs Model.Codes Model.IgnoreSet Model.Config Model.GoAst Model.Annots Model.Analyze
+From GG Require Import Base.Strs Model.Codes Model.IgnoreSet Model.Config Model.GoTypes Model.GoAst Model.Annots Model.Analyze
                        Extracted Exec Proofs.StrsProofs Proofs.WalkProofs Proofs.CheckerProofs.
 Import ListNotations.
 Local Open Scope Z_scope.
@@ -27,7 +27,7 @@ Qed.
 (* (2) no influence: the analysis of a package is the analysis of the package with its excluded files removed -
    whatever annotations, @ignore comments and statements those files contain *)
 Definition drop_excluded (cfg : config) (p : package) : package :=
-  {| p_path := p_path p; p_name := p_name p; p_files := kept_files cfg p; p_imports := p_imports p |}.
+  {| p_path := p_path p; p_name := p_name p; p_files := kept_files cfg p; p_imports := p_imports p; p_types := p_types p |}.
 
 Lemma filter_idem {A} (f : A -> bool) l : filter f (filter f l) = filter f l.
 Proof. induction l as [|x l IH]; simpl; [reflexivity|]. destruct (f x) eqn:E; simpl; [rewrite E, IH|]; auto. Qed.
@@ -41,11 +41,11 @@ Qed.
 
 (* more generally: two packages with the same kept files (and the same identity) are analysed alike *)
 Theorem C14_only_kept_files_matter :
-  forall cfg p p' all, p_path p = p_path p' -> p_name p = p_name p' -> p_imports p = p_imports p' ->
+  forall cfg p p' all, p_path p = p_path p' -> p_name p = p_name p' -> p_imports p = p_imports p' -> p_types p = p_types p' ->
     kept_files cfg p = kept_files cfg p' -> x_analyze cfg p all = x_analyze cfg p' all.
 Proof.
-  intros cfg p p' all H1 H2 H3 H4. rewrite <- (C14_excluded_files_inert cfg p), <- (C14_excluded_files_inert cfg p').
-  unfold drop_excluded. rewrite H1, H2, H3, H4. reflexivity.
+  intros cfg p p' all H1 H2 H3 H5 H4. rewrite <- (C14_excluded_files_inert cfg p), <- (C14_excluded_files_inert cfg p').
+  unfold drop_excluded. rewrite H1, H2, H3, H4, H5. reflexivity.
 Qed.
 
 (* (3) no diagnostic is produced from an excluded file: the four checkers are maps over the kept files *)
